@@ -7,23 +7,23 @@ def run(tier):
     run = Run("C12", tier)
     run.confirm_known()
     conds = []
-    to = 600 if tier == "quick" else 3000
-    plan = [("amb", 2, 2), ("prefix", 2, 1), ("open", 2, 1)] if tier == "quick" else [("amb", 3, 2), ("prefix", 3, 2), ("open", 3, 2), ("rec", 3, 1), ("list", 2, 2)]
-    for spec, nops, targets in plan:
-        for target in range(targets):
-            for op0 in range(9):
-                conds.append(Cond("h_parse_hist.py", "history_independent", to, twin="reach" if (target == 0 and op0 in (0, 2)) else None,
-                                  path_timeout=to / 2, env={"H_SPEC": spec, "H_OPS": str(nops), "H_TARGET": str(target), "H_OP0": str(op0)}))
+    to = 600 if tier == "quick" else 3600
+    # (spec, ops, targets, split the first op over parallel conditions?)
     if tier == "quick":
-        for spec in ("list", "rec"):
-            conds.append(Cond("h_parse_hist.py", "history_independent", to, twin="reach", path_timeout=to / 2,
-                              env={"H_SPEC": spec, "H_OPS": "1", "H_TARGET": "0"}))
+        plan = [("amb", 2, 2, True), ("prefix", 1, 2, False), ("open", 1, 2, False), ("list", 1, 1, False), ("rec", 1, 1, False)]
+    else:
+        plan = [("amb", 3, 2, True), ("prefix", 2, 2, True), ("open", 2, 2, True), ("rec", 2, 1, True), ("list", 2, 1, True)]
+    for spec, nops, targets, split in plan:
+        for target in range(targets):
+            for op0 in (range(9) if split else [-1]):
+                conds.append(Cond("h_parse_hist.py", "history_independent", to, twin="reach" if (target == 0 and op0 in (-1, 0, 2)) else None,
+                                  path_timeout=to / 2, env={"H_SPEC": spec, "H_OPS": str(nops), "H_TARGET": str(target), "H_OP0": str(op0)}))
     run.run_conditions(conds, conformance_harnesses=["h_parse_hist.py"])
     run.encoded = ["Parser.parse_forest/parse_multiple/parse/_parse_forest/collapse"] + PARSER_FUNCS
     run.extra["source_sha256_16"] = source_fingerprint(PARSER_FILES)
     run.bounds = {"history": "symbolic sequence of request codes 0..8 (first tree, full forest, abandoned iteration, prefix mode, other start "
                   "symbol, mutation of returned trees at root / at leaves), words from a finite per-spec list, length <= bound",
-                  "max_ops": {"amb": 2, "prefix": 2, "open": 2, "list": 1, "rec": 1} if tier == "quick" else {"amb": 3, "prefix": 3, "open": 3, "rec": 3, "list": 2}}
+                  "max_ops": {"amb": 2, "prefix": 1, "open": 1, "list": 1, "rec": 1} if tier == "quick" else {"amb": 3, "prefix": 2, "open": 2, "rec": 2, "list": 2}}
     run.outside = ["Grammar.generate's internal parse and Fandango.parse's constraint filter (exercised by C16/C07 harnesses)",
                    "interleaving two live generators of the same Parser", "hookin_parent requests"]
     run.assumptions = TRUST
